@@ -336,7 +336,7 @@ func (s *handlerWriter) Write(buf []byte) (n int, err error) {
 		var pc uintptr
 		if s.capturePC {
 			// skip [runtime.Callers, s.Write, Logger.Output, log.Print]
-			pc = getpc(4, s.extraFrames)
+			pc = getpc(4, s.extraFrames+s.l.Skip()) // honour WithSkip/SetSkip of the underlying logger
 		}
 		if h, ok := s.l.(LogLoggerAware); ok {
 			n, err = h.WriteInternal(context.Background(), s.lvl, pc, buf)
